@@ -396,7 +396,7 @@ func c18RunReal(in c18Input, policy int, limit time.Duration) (events []string, 
 func checkC18(w *Worker) {
 	inputs := c18Inputs(w.Tier)
 	type key struct{ in, pol int }
-	modelOutcomes := map[key]map[string]bool{}
+	modelOutcomes := map[key]map[uint64]bool{} // (hashes of the observations: a seeded tree may produce 100 000 long ones)
 	modelDeadlock := map[key]bool{}
 	var firsts []c18Input
 	for _, in := range inputs {
@@ -426,9 +426,11 @@ func checkC18(w *Worker) {
 			k = key{-1 - ii, policy} // (not part of the validation against real channels below)
 		}
 		if modelOutcomes[k] == nil {
-			modelOutcomes[k] = map[string]bool{}
+			modelOutcomes[k] = map[uint64]bool{}
 		}
-		modelOutcomes[k][obs] = true
+		if k.in >= 0 { // (only these are validated against real channels)
+			modelOutcomes[k][hash64([]byte(obs))] = true
+		}
 		if o.Deadlock || !o.ConsumerDone {
 			modelDeadlock[k] = true
 		}
@@ -573,7 +575,7 @@ func checkC18(w *Worker) {
 			if !fin {
 				fatalHarness("channel model validation: input %s consumer %d terminates in every modelled schedule but the free run on real channels did not finish in 20s", inputs[k.in].Name, k.pol)
 			}
-			if !outs[strings.Join(ev, " | ")] {
+			if !outs[hash64([]byte(strings.Join(ev, " | ")))] {
 				// the free run disagrees with every modelled schedule. If what the real channels delivered
 				// is not the callback parser's result, the property is broken on the real program (e.g. a
 				// node mutated after it was sent); otherwise the model is wrong.
@@ -588,11 +590,11 @@ func checkC18(w *Worker) {
 					want = append(want, "done")
 				}
 				if strings.Join(want, " | ") == strings.Join(ev, " | ") {
-					fatalHarness("channel model validation: input %s consumer %d: real channels produced %v, which no modelled schedule produced (%v)", inputs[k.in].Name, k.pol, ev, outs)
+					fatalHarness("channel model validation: input %s consumer %d: real channels produced %v, which no modelled schedule produced (%d distinct modelled observations)", inputs[k.in].Name, k.pol, ev, len(outs))
 				}
 				sig := "C18|free-run-on-real-channels|wrong-observation"
 				w.ViolCount[sig]++
-				w.Violations = append(w.Violations, Violation{Sig: sig, Explore: "free-run", Detail: fmt.Sprintf("input %s (%q), consumer policy %d, free-running on real channels: consumer saw %v, the callback parser gives %v (every cooperative schedule gave %v)", inputs[k.in].Name, inputs[k.in].Text, k.pol, ev, want, outs)})
+				w.Violations = append(w.Violations, Violation{Sig: sig, Explore: "free-run", Detail: fmt.Sprintf("input %s (%q), consumer policy %d, free-running on real channels: consumer saw %v, the callback parser gives %v (none of the %d observations of the cooperative schedules)", inputs[k.in].Name, inputs[k.in].Text, k.pol, ev, want, len(outs))})
 			}
 			validated++
 		}
